@@ -1138,6 +1138,18 @@ class TwoDSpectrumBase(DataSaveable):
                     raise Exception("Tag specified for storage resolutios"+
                                     " 'types'. Tag would be ignored and"+
                                     " information lost")
+                if self.storage_resolution == "pathways":
+                    # the storage keeps individual pathways: data of a whole
+                    # type are accumulated as an untagged pathway of that
+                    # type so that they are counted exactly once
+                    if not isinstance(data, numpy.ndarray):
+                        raise TypeError("data must be a numpy.ndarray")
+                    piece = self._d__data.setdefault(dtype, {})
+                    if None in piece:
+                        piece[None] = piece[None] + data
+                    else:
+                        piece[None] = data
+                    return
                 self.set_data_flag(dtype)
                 try:
                     odata = self.d__data
